@@ -216,7 +216,7 @@ def check(rep, an, tier):
                         rep.check("R-FORWARD", f"{p} forwarded on the axis path", v is not None and p in v.flat().data, where=ev.loc,
                                   construct=f"np.apply_along_axis({fname}, …) {p}=", entry=entry, config=res.config,
                                   msg=f"`{p}` is not forwarded when an axis is given: the converter runs with its default ({p}=None) per slice")
-                    w = ev.d["rest"][0] if ev.d["rest"] else None
+                    w = ev.d["rest"][0] if ev.d["rest"] else ev.d["kws"].get("wavelengths")
                     rep.check("R-FORWARD", "wavelengths forwarded on the axis path", w is not None and "wavelengths" in w.flat().data, where=ev.loc,
                               construct=f"np.apply_along_axis({fname}, …) wavelengths", entry=entry, config=res.config)
             elif rec:
